@@ -9,7 +9,7 @@ INVS = ("OnlyStrangersRemoved ProtectedUntouched WholeRepoOnlyWithoutSigrefs NoS
         "UnsignedKept Idempotent")
 
 RULE = ("cases = maximal behaviours of the bounded model (peers L d1 d2 f o; 7 delegate sets; all namespace-state combinations "
-        "absent/unsigned/signed/corrupt; up to 3 clean / re-fetch steps), each materialised as a real repository in a real "
+        "absent/unsigned/signed/corrupt; up to 3 (quick) / 4 (thorough) clean / re-fetch steps), each materialised as a real repository in a real "
         "Storage (identity document with that delegate set, real namespaces, real signed refs) and stepped through the real "
         "Storage::clean with the projected namespace states compared after every step; quick tier: a seeded sample stratified by "
         "(delegate set, local namespace state), thorough: all; gating = C28 on the real pre/post states (local and delegate "
@@ -27,7 +27,7 @@ def run(ctx):
     thorough = ctx.tier == "thorough"
     ctx.build(ENGINE)
     # 1. design level
-    res = ctx.tlc("MCClean", "MCClean_q.cfg", workers=4, timeout=900, coverage=True, label=f"exhaustive: invariants {INVS}")
+    res = ctx.tlc("MCClean", "MCClean_t.cfg" if thorough else "MCClean_q.cfg", workers=4, timeout=900, coverage=True, label=f"exhaustive: invariants {INVS}")
     ctx.tlc_ok(res, "MCClean")
     if res.violated:
         ctx.violation(f"model:{res.violated}", "the transcribed cleanup violates the statement in the bounded model",
